@@ -25,14 +25,20 @@ static int text_may_spawn(const unsigned char *d, size_t n)
 {
     for (size_t i = 0; i < n; i++) {
         if (d[i] == '`') return 1;
-        if (d[i] == '%' && i + 5 <= n && !strncasecmp((const char *)d + i + 1, "exec", 4)) return 1;
-        if (d[i] == '%' && i + 8 <= n && !strncasecmp((const char *)d + i + 1, "preproc", 7)) return 1;
+        if (d[i] == '%') {
+            /* the directive word may stand off from the per cent sign: blanks, tabs and a quote are stepped over before it is read */
+            size_t j = i + 1;
+            while (j < n && (d[j] == ' ' || d[j] == '\t' || d[j] == '"' || d[j] == '\'')) j++;
+            if (j + 4 <= n && !strncasecmp((const char *)d + j, "exec", 4)) return 1;
+            if (j + 7 <= n && !strncasecmp((const char *)d + j, "preproc", 7)) return 1;
+        }
     }
     return 0;
 }
 
 static char tmpnames[32][320]; static int ntmpnames;
 static int bigdir; static long g_outlen = 22;
+static int cyc_fds, cyc_temps, cyc_dirs, cyc_streams;
 static void exec_c11(const plan_t *p)
 {
     uint32_t base_serial = 0;
@@ -46,6 +52,7 @@ static void exec_c11(const plan_t *p)
     conf_fill_dir(p);
     simfs_set_mkstemp_mode((int)plan_get(p, "mkstemp.mode", 0600));
     conf_set_index_checks(1);
+    conf_allow_record_overflow(1);
     conf_env_setup(p);
     for (int i = 0; i < p->nops; i++) {
         op_t *o = (op_t *)&p->ops[i];
@@ -69,6 +76,7 @@ static void exec_c11(const plan_t *p)
             conf_reset_mirror();
             simfs_set_call_failures((int)plan_get(p, "fdopen.fail", 0), (int)plan_get(p, "fchmod.fail", 0));      /* every cycle meets the same refusals, so a repeated cycle is still comparable */
             spifconf_init_subsystem();
+            cyc_fds = simfs_open_fds(); cyc_temps = simfs_live_temp_files(); cyc_dirs = simfs_open_dirs(); cyc_streams = simfd_open_streams();
             inited = 1; cycle++; cycle_from = conf_trace_count(); cycle_ops = 1469598103934665603ULL;
             tr_printf("init cycle %d", cycle);
         } else if (!strcmp(k, "free")) {
@@ -76,6 +84,12 @@ static void exec_c11(const plan_t *p)
             spifconf_free_subsystem();
             inited = 0;
             tr_printf("free cycle %d", cycle);
+            /* "freeing releases everything it allocated and leaves no state behind": besides memory, nothing the cycle opened or created
+               for its own use is left -- config streams, directory handles, temp-file descriptors, temp files */
+            if (simfd_open_streams() != cyc_streams) sim_fail("INVARIANT(left-behind)", "%d config streams opened during the cycle are still open after spifconf_free_subsystem()", simfd_open_streams() - cyc_streams);
+            if (simfs_open_dirs() != cyc_dirs) sim_fail("INVARIANT(left-behind)", "%d directory handles opened during the cycle are still open after spifconf_free_subsystem()", simfs_open_dirs() - cyc_dirs);
+            if (simfs_open_fds() != cyc_fds) sim_fail("INVARIANT(left-behind)", "%d temporary-file descriptors opened during the cycle are still open after spifconf_free_subsystem()", simfs_open_fds() - cyc_fds);
+            if (simfs_live_temp_files() != cyc_temps) sim_fail("INVARIANT(left-behind)", "%d temporary files created during the cycle still exist after spifconf_free_subsystem()", simfs_live_temp_files() - cyc_temps);
             if (sa_count_live_since(base_serial) || sa_live_count() != base_live) {
                 char buf[300];
                 size_t n = sa_report_live_since(base_serial, buf, sizeof(buf));
@@ -125,11 +139,7 @@ static void exec_c11(const plan_t *p)
             sim_free(name);
             if (!may_spawn && simfs_spawns != spawns0) sim_fail("MISMATCH(spawn)", "a process was spawned (\"%.80s\") although no file contains a backquote, %%exec or %%preproc", simfs_last_cmd);
             if (simfs_spawns != spawns0) probe_hit("spawn_by_directive");
-            if (simfd_open_streams()) sim_fail("INVARIANT(files-closed)", "%d config streams are still open after spifconf_parse returned", simfd_open_streams());
-            /* nothing the parse opened or created for its own use is left behind: directory handles, temp-file descriptors, temp files */
-            if (simfs_open_dirs()) sim_fail("INVARIANT(left-behind)", "%d directory handles are still open after spifconf_parse returned", simfs_open_dirs());
-            if (simfs_open_fds() != fds0) sim_fail("INVARIANT(left-behind)", "%d temporary-file descriptors opened during the parse are still open", simfs_open_fds() - fds0);
-            if (simfs_live_temp_files() != temps0) sim_fail("INVARIANT(left-behind)", "%d temporary files created during the parse still exist", simfs_live_temp_files() - temps0);
+            (void)fds0; (void)temps0;       /* (what a parse may keep until the subsystem is freed -- a stream, a scratch file -- is its own business: the census is taken at free) */
             if (simacc_vars_head()) probe_hit("vars_defined");
             if (cycle > 1 && simacc_vars_head()) probe_hit("second_cycle_uses_vars");
         } else if (!strcmp(k, "find") && o->has_s) {
@@ -146,9 +156,12 @@ static void exec_c11(const plan_t *p)
             if ((pl && strlen(pl) > 32767) || (dir && strlen(dir) > 4096)) probe_hit("path_component_over_limits");
             sim_free(file); if (dir) sim_free(dir); if (pl) sim_free(pl);
         } else if (!strcmp(k, "tempfile") && o->has_s) {
-            char *tmpl = sim_malloc(300);
+            /* the caller's buffer is exactly as long as the caller says (or as long as its template, if that is longer): a byte written behind
+               it is the allocator's to report */
+            size_t room0 = (size_t)(o->a[0] > 0 && o->a[0] <= 300 ? o->a[0] : 300), tl0 = o->slen < 200 ? o->slen : 200, blk = room0 > tl0 + 1 ? room0 : tl0 + 1;
+            char *tmpl = sim_malloc(blk);
             int fd, reused0 = simfs_tempfile_name_reused, bad0 = simfs_tempfile_bad_mode, made0 = simfs_tempfiles_created;
-            snprintf(tmpl, 300, "%.*s", (int)(o->slen < 200 ? o->slen : 200), (const char *)o->s);
+            snprintf(tmpl, blk, "%.*s", (int)tl0, (const char *)o->s);
             for (char *q = tmpl; *q; q++) if (*q == '/') *q = '_';
             fd = spiftool_temp_file((spif_charptr_t)tmpl, (size_t)(o->a[0] > 0 && o->a[0] <= 300 ? o->a[0] : 300));
             tr_printf("tempfile -> %d %.60s", fd, tmpl);
@@ -164,14 +177,17 @@ static void exec_c11(const plan_t *p)
                     const char *made = simfs_last_temp_name();
                     size_t room = (size_t)(o->a[0] > 0 && o->a[0] <= 300 ? o->a[0] : 300), ml = strlen(made), tl = strlen(tmpl);
                     if (!simfs_is_temp(made)) sim_fail("INVARIANT(tempfile-unique)", "the created file \"%.80s\" is gone when the call returns", made);
-                    if (ml < room ? strcmp(tmpl, made) != 0 : (tl >= room || strncmp(tmpl, made, tl) != 0))
+                    /* (a name that does not fit the caller's buffer: what the buffer holds then is not stated -- it only has to be a string) */
+                    if (ml < room ? strcmp(tmpl, made) != 0 : !memchr(tmpl, 0, blk))
                         sim_fail("INVARIANT(tempfile-unique)", "the returned name \"%.80s\" is not the file that was created (\"%.80s\", buffer of %zu)", tmpl, made, room);
+                    (void)tl;
                     if (ml < room) {
                         for (int q = 0; q < ntmpnames; q++) if (!strcmp(tmpnames[q], tmpl)) sim_fail("INVARIANT(tempfile-unique)", "the name \"%.80s\" was returned by an earlier call", tmpl);
                         if (ntmpnames < 32) snprintf(tmpnames[ntmpnames++], sizeof(tmpnames[0]), "%s", tmpl);
                     }
                 }
                 sim_close(fd);
+                sim_remove(simfs_last_temp_name());          /* the caller's file: the caller removes it (the cycle's census is about what the subsystem itself leaves) */
             }
             sim_free(tmpl);
         } else if (!strcmp(k, "expand") && o->has_s) {
@@ -189,6 +205,7 @@ static void exec_c11(const plan_t *p)
     }
     R.cur_op = NULL;
     conf_set_index_checks(0);
+    conf_allow_record_overflow(0);
     if (simfs_tempfile_bad_mode) sim_fail("INVARIANT(tempfile-mode)", "a temporary file was created accessible to group/others");
     if (simfs_tempfile_name_reused) sim_fail("INVARIANT(tempfile-unique)", "a temporary file name was reused");
 }
@@ -269,6 +286,21 @@ static void gen_conf_file(plan_t *p, rng_t *r, const char *name, int allow_exec,
                 static const char *shr[] = { "${NOSUCH}", "$NOSUCH", "%get(nokey)", "$(EMPTY)", "${NOSUCH}${NOSUCH_TOO} x", "$NOSUCH missing.cfg", "${NOSUCH}\"", "" };
                 add("%%%s%sinclude%s %s\n", gap[rng_below(r, 4)], qt[rng_below(r, 3)], rng_chance(r, 1, 4) ? qt[rng_below(r, 2)] : "", shr[rng_below(r, 8)]);
             }
+            else if (c < 80 && rng_chance(r, 1, 8)) {
+                /* built-in calls nested hundreds deep: one line of a few kilobytes, one level of recursion per call */
+                static const int deep[] = { 20, 100, 300, 450, 600, 1000, 3000 };
+                int d = deep[rng_below(r, 7)];
+                add("x ");
+                for (int z = 0; z < d; z++) add("%%get(");
+                add("k1");
+                for (int z = 0; z < d - (rng_chance(r, 1, 10) ? 1 : 0); z++) add(")");
+                add(" y\n");
+            }
+            else if (c < 80 && allow_exec && rng_chance(r, 1, 3)) {
+                /* commands whose output is not plain text: it begins with a NUL, is all white space, holds quotes and per cent signs */
+                static const char *outs[] = { "nul.bin", "ws.txt", "meta.txt", "nl.txt" };
+                add(rng_chance(r, 1, 2) ? "x `cat /cfg/%s` y\n" : "x %%exec(cat /cfg/%s) y\n", outs[rng_below(r, 4)]);
+            }
             else if (c < 80 && rng_chance(r, 1, 2)) {
                 /* shapes picked from the coverage report (tools/coverage.py): built-ins called with the wrong number of words, the
                    "%name )" spelling, built-ins that yield an empty text, a directive without its argument, a directory that is not there,
@@ -283,7 +315,16 @@ static void gen_conf_file(plan_t *p, rng_t *r, const char *name, int allow_exec,
             else if (c < 86) add("v $V1 ${HOME} $(EMPTY) $NOSUCH ~ ~/x \\t\\n \n");
             else if (c < 88) add("%%random(a b c d)\n");
             else if (c < 90) add("%%version() %%appname()\n");
-            else if (c < 92 || (bigdir && c < 97)) add("%s%%dirscan(/cfg/d)\n", rng_chance(r, 1, 3) ? "x " : "");
+            else if (c < 92 || (bigdir && c < 97)) {
+                if (rng_chance(r, 1, 6)) {
+                    /* the same directory by a path of a few thousand bytes: whatever is built from "dir/name" has to cope */
+                    static const int ks[] = { 100, 1000, 1900, 1950, 2020 };
+                    int kk = ks[rng_below(r, 5)];
+                    add("x %%dirscan(/cfg/d");
+                    for (int z = 0; z < kk; z++) add("/.");
+                    add(")\n");
+                } else add("%s%%dirscan(/cfg/d)\n", rng_chance(r, 1, 3) ? "x " : "");
+            }
             else if (c < 94 && allow_exec) {
                 if (rng_chance(r, 1, 6)) {
                     /* a command just as long as its buffer allows: "command >tempfile" of CONFIG_BUFF bytes, give or take a few */
@@ -295,7 +336,7 @@ static void gen_conf_file(plan_t *p, rng_t *r, const char *name, int allow_exec,
                 else add(rng_chance(r, 1, 2) ? "%%exec(echo hello   world)\n" : "x `echo back quoted` y\n");
             }
             else if (c < 94) { int n = rng_range(r, 120, 140); add(rng_chance(r, 1, 2) ? "n ${" : "n $"); for (int i = 0; i < n; i++) add("N"); add("} x\n"); }
-            else if (c < 95 && allow_exec && level == 0) {
+            else if (c < 95 && allow_exec && (level == 0 || rng_chance(r, 1, 3))) {      /* (in included files too: a preprocessed file above another one on the stack) */
                 if (rng_chance(r, 1, 5)) { int n = rng_range(r, 4040, 4100); add("%%preproc cat"); for (int z = 0; z < n; z++) add("t"); add("\n"); }      /* command + file names around PATH_MAX */
                 else add("%%preproc cat\n");
             }
@@ -329,6 +370,7 @@ static void gen_c11(plan_t *p, rng_t *r)
     plan_knob(p, "alloc.realloc", rng_range(r, 0, 2));
     plan_knob(p, "alloc.reuse", rng_range(r, 0, 2));
     plan_knob(p, "mkstemp.mode", rng_chance(r, 1, 2) ? 0600 : 0666);
+    if (rng_chance(r, 1, 6)) plan_knob(p, "env.meta", rng_range(r, 1, 8));          /* an environment value that looks like something to expand or to run: it is inserted as it is */
     if (rng_chance(r, 1, 8)) plan_knob(p, "fdopen.fail", rng_range(r, 1, 3));       /* the k-th fdopen() of the run finds no stream to be had */
     if (rng_chance(r, 1, 8)) plan_knob(p, "fchmod.fail", rng_range(r, 1, 3));       /* the k-th fchmod() is refused */
     plan_knob(p, "tmpdir", rng_chance(r, 1, 3) ? (rng_chance(r, 1, 3) ? rng_range(r, 2, 3) : rng_chance(r, 1, 4) ? rng_range(r, 4, 5) : 1) : 0);
@@ -361,6 +403,10 @@ static void gen_c11(plan_t *p, rng_t *r)
         if (c == 0) first_ops_start = p->nops;
         plan_op(p, 0, "ctx", 2, (long)(rng_chance(r, 1, 10) ? rng_range(r, 150, 270) : rng_range(r, 0, 12)), (long)rng_chance(r, 1, 6));
         if (rng_chance(r, 1, 2)) { static const int nb[] = { 1, 2, 3, 4, 5, 6, 13, 33, 73, 153, 240 }; plan_op(p, 0, "builtin", 1, (long)nb[rng_below(r, rng_chance(r, 1, 6) ? 11 : 6)]); }      /* past the second, third ... doubling of the table too */
+        if (allow_exec) {
+            static const struct { const char *n; const char *d; size_t l; } of[] = { { "nul.bin", "\0abc", 4 }, { "ws.txt", "  \n\t \n", 6 }, { "meta.txt", "it's \"q\" %get(k1) `x` $V1 ~\n", 28 }, { "nl.txt", "\n", 1 } };
+            for (int z = 0; z < 4; z++) { o = plan_op(p, 0, "file", 0); op_str(o, of[z].n, strlen(of[z].n)); op_str2(o, of[z].d, of[z].l); }
+        }
         gen_conf_file(p, r, "root.cfg", allow_exec, vars);
         if (rng_chance(r, 1, 2)) gen_conf_file(p, r, "inc.cfg", allow_exec, vars);
         if (rng_chance(r, 1, 3)) gen_conf_file(p, r, "sub/s.cfg", allow_exec, vars);
